@@ -497,7 +497,24 @@ def rule_factor_det(P):
         inner = norm(lp[0].target) if lp else "?"
         ok = num == sorted([f"{q}[{inner}]", f"self.stop[{inner}]"]) and not den and norm(lp[0].iter) == q
     r.add(f, addF[0] if addF else f.node, ok, "" if ok else "final weight of a subset state must sum Q[q]·stop[q] over q ∈ Q")
-    r.min_instances = 3
+    # every subset state gets its final weight, the initial one included: the pass runs over all states of the result after the
+    # exploration, not only for the subsets discovered inside the exploration loop
+    for c in addF:
+        wl = next((a for a in ancestors(c) if isinstance(a, ast.While)), None)
+        if wl is not None:
+            seeded = [x for x in addF if x is not c and not any(isinstance(a, ast.While) for a in ancestors(x))]
+            ok2 = bool(seeded)
+            r.add(f, c, ok2, "" if ok2 else f"`{first_line(c)}` assigns final weights only to subsets discovered inside the exploration loop: the initial subset is "
+                  f"put on the stack before the loop and never gets one, so the empty string (and every string accepted in the initial subset) "
+                  f"loses its weight", construct="determinize: final weights of every subset state")
+        else:
+            lp = [a for a in ancestors(c) if isinstance(a, ast.For)]
+            ok2 = bool(lp) and norm(lp[-1].iter).endswith(".states")
+            if ok2:
+                r.add(f, c, True, construct="determinize: final weights of every subset state", nontrivial=False)
+            else:
+                r.undecided(f, c, "the final-weight pass does not range over the states of the result", construct="determinize: final weights of every subset state")
+    r.min_instances = 4
     return r
 
 
@@ -541,7 +558,17 @@ def rule_factor_bytes(P):
             step = [n for n in lp.body if isinstance(n, ast.Assign) and W.is_name(n.targets[0], cv) and norm(n.value) == norm(ic.args[2]) and W.pos(n) > W.pos(ic)]
             fresh = isinstance(ic.args[2], ast.Name) and any(v is not None and isinstance(v, ast.Call) and W._within(st, lp) for st, v in W.assignments_to(f.node, ic.args[2].id))
             problems = []
-            if norm(lp.iter) != f"{bs}[:-1]":
+            star_form = None
+            for st_ in walk_live(f.node):
+                if isinstance(st_, ast.Assign) and isinstance(st_.targets[0], ast.Tuple) and len(st_.targets[0].elts) == 2 \
+                        and isinstance(st_.targets[0].elts[0], ast.Starred) and isinstance(st_.targets[0].elts[1], ast.Name) \
+                        and norm(st_.targets[0].elts[0].value) == norm(lp.iter) and ".encode(" in norm(st_.value):
+                    star_form = (norm(lp.iter), st_.targets[0].elts[1].id)  # (all bytes but the last, the last byte)
+            if star_form is not None:
+                last_txt = star_form[1]
+            else:
+                last_txt = f"{bs}[-1]"
+            if star_form is None and norm(lp.iter) != f"{bs}[:-1]":
                 problems.append(f"the inner loop ranges over `{norm(lp.iter)}`, not over all bytes but the last")
             if not init:
                 problems.append(f"`{cv}` does not start at the arc's source `{i}`")
@@ -549,8 +576,8 @@ def rule_factor_bytes(P):
                 problems.append(f"`{cv}` is not advanced to a fresh state after every byte")
             if norm(ic.args[1]) != norm(lp.target) or not W.cnorm(f.node, ic.args[3], ic).endswith(".one"):
                 problems.append(f"an inner arc is `{first_line(ic)}`: it must read the loop's byte with weight one")
-            if lc.args[0].id != cv or norm(lc.args[1]) != f"{bs}[-1]" or norm(lc.args[2]) != j or W.cnorm(f.node, lc.args[3], lc) != w or W.pos(lc) < W.end_pos(lp):
-                problems.append(f"the last arc `{first_line(lc)}` must leave `{cv}` on `{bs}[-1]` into `{j}` with weight `{w}`, after the loop")
+            if lc.args[0].id != cv or norm(lc.args[1]) != last_txt or norm(lc.args[2]) != j or W.cnorm(f.node, lc.args[3], lc) != w or W.pos(lc) < W.end_pos(lp):
+                problems.append(f"the last arc `{first_line(lc)}` must leave `{cv}` on `{last_txt}` into `{j}` with weight `{w}`, after the loop")
             r.add(f, lc, not problems, "; ".join(problems), slots=dict(shape="uniform chain", weights=[W.cnorm(f.node, ic.args[3], ic), W.cnorm(f.node, lc.args[3], lc)]),
                   construct="to_bytes multi-byte branch")
             r.add(f, ic, not problems, "; ".join(problems), construct="to_bytes: chain connectivity")
